@@ -248,6 +248,17 @@ def nameShapeOk (trace : List Name) (name : Name) : Bool :=
     | some rest => allDigits rest
     | none => false
 
+/-- some way of reading `name` as "last `j+1` trace items + digits" uses only as many ancestors as are needed:
+`j = 0`, or the positions of this PascalCase name are not yet separated by `j` items (own name + `j-1` ancestors) -/
+def qualificationNeeded (all : List (Name × List Name)) (trace : List Name) (own : Name) (name : Name) : Bool :=
+  let group := traceGroup all own
+  let minLen := (group.map List.length).min?.getD 0
+  (List.range trace.length).any fun j =>
+    (match stripPrefix? ((trace.drop (trace.length - (j + 1))).flatten) name with
+     | some rest => allDigits rest
+     | none => false) &&
+    (j == 0 || j > minLen || !decide ((group.map (traceBuffer j)).Nodup))
+
 def checkC14 (c : HCase) (obs : List StepObs) : Verdict :=
   match finalImplTree obs, c.renders.find? (fun r => r.1.sort == .unsorted) with
   | some t, some (_, txt) =>
@@ -266,6 +277,8 @@ def checkC14 (c : HCase) (obs : List StepObs) : Verdict :=
             .prop s!"first struct {showName s.name} is not the root element's name"
           else if (all.filter (fun p => p.1 = own)).length = 1 && !(match stripPrefix? own s.name with | some r => allDigits r | none => false) then
             .prop s!"struct {showName s.name}: the name {showName own} occurs once in the tree but is qualified"
+          else if !qualificationNeeded all en.trace own s.name then
+            .prop s!"struct {showName s.name} is qualified by more ancestors than are needed to separate the positions of {showName own}"
           else .ok),
         fun _ => renderCorr (some t) c.renders ]
   | _, _ => .gen "no-tree-or-render"
